@@ -168,6 +168,9 @@ def inputs(ctx):
         if specs:
             ins.append({"id": "r%d" % k, "caps": _caps(rng, specs, rng.choice(["tight", "plus1", "sparse"]),
                                                       rng.choice(["tight", "late"]))})
+    # every fourth input once more with a writer object that has written another document before
+    for i in list(ins)[::4]:
+        ins.append(dict(i, id=i["id"] + "p", prev=True))
     return ins
 
 
@@ -181,7 +184,12 @@ def execute(inp):
     rec = {"ok": False, "header_ok": False, "syntax_ok": False, "lines": [], "back": [],
            "caps": [{"start": limbs(c["s"]), "words": _words(c["lines"])} for c in inp["caps"]]}
     try:
-        out = pycaption.SCCWriter().write(cs)
+        w = pycaption.SCCWriter()
+        if inp.get("prev"):
+            # the writer object wrote another document before (later times, other text)
+            w.write(build.caption_set(build.simple_set([(3_600_000_000, 3_602_000_000, ["an hour in"]),
+                                                        (3_605_000_000, 3_607_000_000, ["and more"])])))
+        out = w.write(cs)
     except Exception as e:
         rec["err"] = type(e).__name__ + ": " + str(e)[:200]
         return rec
